@@ -34,6 +34,7 @@ import ast as _ast
 # every local name of every method of the confirmed tree: a local that exists there keeps its role; only *new* locals
 # bound to attributes of self are read as aliases (mpsa/normalize.unalias_self)
 out['__aliases__'] = {rel: {q: sorted({x.id for x in _ast.walk(fi.node) if isinstance(x, _ast.Name) and isinstance(x.ctx, _ast.Store)}) for q, fi in m.functions.items()} for rel, m in repo.modules.items()}
+out['__globals__'] = {rel: sorted({t.id for st in m.tree.body if isinstance(st, (_ast.Assign, _ast.AnnAssign)) for t in (st.targets if isinstance(st, _ast.Assign) else [st.target]) if isinstance(t, _ast.Name)}) for rel, m in repo.modules.items()}
 out['__all__'] = {rel: sorted(q for q in m.functions if '#' not in q) for rel, m in repo.modules.items()}
 ANCHORS_FILE.write_text(json.dumps(out, indent=0, sort_keys=True))
-print(f'{ANCHORS_FILE}: {sum(len(v) for k, v in out.items() if k not in ("__all__", "__aliases__"))} fingerprints; {sum(len(v) for v in out["__all__"].values())} reference names')
+print(f'{ANCHORS_FILE}: {sum(len(v) for k, v in out.items() if k not in ("__all__", "__aliases__", "__globals__"))} fingerprints; {sum(len(v) for v in out["__all__"].values())} reference names')
